@@ -28,7 +28,7 @@ ASSUMPTIONS = [
     "out of reach for CrossHair: ~7 s per path); the string-level statement is the K query",
     "closure is syntactic: a name that resolves to a *wrong* same-named class is C18's subject",
 ]
-BOUNDS = {"quick": "K: paths <= 6 chars; C: 3456 configurations", "thorough": "K: paths <= 7 chars; C: 3456 configurations"}
+BOUNDS = {"quick": "K: paths <= 6 chars; C: 8064 configurations", "thorough": "K: paths <= 7 chars; C: 8064 configurations"}
 MANIFEST = {
     "text": "Bounded symbolic: the matching heuristic is decided by z3 for all paths within the bound; reference/import "
             "closure over all outputs is decided by CrossHair for every configuration of the bounded model grammar.",
@@ -40,7 +40,7 @@ MANIFEST = {
 
 def plan(tier):
     t = 300 if tier == "quick" else 900
-    parts = [f"0:{c},1:{m},2:{n}" for c in range(2) for m in range(6) for n in range(3)]
+    parts = [f"0:{c},1:{m},2:{n}" for c in range(2) for m in range(7) for n in range(3)]
     return [
         K("k_path_match", "kjobs.c11", "path_matching", "path/class matching vs segment suffix"),
         K("k_reexport_keys", "kjobs.c11", "reexport_key_matching", "re-export key selection vs dotted-segment membership"),
